@@ -5,10 +5,10 @@ CONSTANTS
   MaxMut = 1
   Drop = {}
   HeaderLengthFix = TRUE
-  PairMod = 19
+  PairMod = 11
   PairAllModes = FALSE
-  SPairMod = 7
-  NTriple = 1500
+  SPairMod = 5
+  NTriple = 2500
   NConc = 1
   Conns = 4
   Rounds = 25
